@@ -2,6 +2,6 @@ SPECIFICATION Spec
 CONSTANTS
   Stale = FALSE
   MaxLinks = 3
-  Flavours = {"var", "name", "lit"}
+  Flavours = {"var", "name", "lit", "neg", "negsp"}
 INVARIANTS Emit WhitespaceInsensitive PrecedenceHolds
 CHECK_DEADLOCK FALSE
